@@ -214,6 +214,23 @@ def run(ck, replay=None):
                              {'cfg': cfg, 'clause': x['clause'], 'detail': x['detail'], 'steps': row['steps'][:x['step'] + 1]})
             elif x['status'] == 'deviation':
                 deviations[x['clause']] = deviations.get(x['clause'], 0) + 1
+            elif x['status'] == 'blocked':
+                # 30 s without progress while every other actor is parked: believed if it blocks again, twice, replayed alone
+                n = ck.cov.get('blocked_confirmations', 0)
+                again = n >= 3
+                if not again:
+                    again = True
+                    for _ in range(2):
+                        rr, cc = common.run_shards(ck, 'named-replay', [row], ['-par', '1'], shards=1, tag='npb')
+                        if cc or not rr or rr[0].get('status') != 'blocked':
+                            again = False
+                            ck.cov['slow_not_blocked'] = ck.cov.get('slow_not_blocked', 0) + 1
+                            break
+                    if again:
+                        ck.cov['blocked_confirmations'] = n + 1
+                if again:
+                    ck.violation('blocked:' + x['detail'], 'the real registry deadlocks on a behaviour of the specification: ' + x['detail'],
+                                 {'cfg': cfg, 'detail': x['detail'], 'steps': row['steps'][:x['step'] + 1]})
             else:
                 raise common.Infra('replay infrastructure error: %s' % x)
         ck.cov.setdefault('replay_configs', {})[cfg] = dict(info, mode=mode, replayed=len(rows))
